@@ -2071,6 +2071,12 @@ func runCase(raw json.RawMessage) interface{} {
 			o = runBridgeStall(c)
 		case "bridge_startrace":
 			o = runBridgeStartRace(c)
+		case "stream_queue":
+			o = runStreamQueue(c)
+		case "fault_close":
+			o = runFaultClose(c)
+		case "bridge_attach":
+			o = runBridgeAttach(c)
 		case "traffic_gate":
 			o = runTrafficGate(c)
 		case "bridge_close_gate":
